@@ -98,7 +98,7 @@ def oracle_eval(mod, cases, workdir, tag, use_model):
         if c.get('pyfail'):
             o_bad.add(i)
     m_bad = set()
-    if use_model:
+    if use_model and mod.model_vos:
         m_exprs = [c['model'] if c.get('model') else 'true' for c in cases]
         m_bad = fw.eval_bools(mod.model_imports, m_exprs, workdir, tag + 'm') if cases else set()
     return o_bad, m_bad
@@ -113,6 +113,7 @@ def run(pid, mod, args, seed, t0, workdir):
     deps = fw.coq_deps(mod.props_file)
     proof_built = b.uptodate(props_vo)
     oracle_ok = all(b.uptodate(v) for v in mod.oracle_vos)
+    has_model = bool(mod.model_vos)
     model_ok = all(b.uptodate(v) for v in mod.model_vos)
     if not oracle_ok:
         raise fw.HarnessError('oracle layer does not build (hand-written, kernel-free):\n' + b.log[-3000:])
@@ -191,6 +192,9 @@ def run(pid, mod, args, seed, t0, workdir):
                     n_corpus += 1
     cases.extend(mod.generate(rng, tier))
     o_bad, m_bad = oracle_eval(mod, cases, workdir, 'c', model_ok)
+    out_of_model = None
+    if any(c.get('aux') for c in cases):
+        out_of_model = len(fw.eval_bools(mod.oracle_imports, [c.get('aux') or 'true' for c in cases], workdir, 'ca'))
 
     # ---- search when a proof / translation / model correspondence broke ---
     searched = 0
@@ -217,7 +221,7 @@ def run(pid, mod, args, seed, t0, workdir):
             key0 = mod.key(case)
             if key0 in reported_keys:
                 continue
-            small = shrink(mod, case, still) if len(reported_keys) < 8 else case
+            small = shrink(mod, case, still) if (len(reported_keys) < 8 and os.environ.get('VERIF_NOSHRINK') != '1') else case
             key = mod.key(small)
             if key in reported_keys:
                 continue
@@ -282,6 +286,7 @@ def run(pid, mod, args, seed, t0, workdir):
             'rule': mod.rule, 'samples': samples, 'distribution': dist,
             'corpus_cases': n_corpus, 'search_cases': searched,
             'oracle_failures': len(o_bad), 'model_disagreements': len(m_bad),
+            'cases_that_left_the_model': out_of_model,
             'model_layer_built': model_ok, 'proof_built': proof_built,
             'build_wall_s': round(b.wall, 2),
             'exhaustive': bool(getattr(mod, 'exhaustive', False)),
